@@ -981,6 +981,16 @@ class Frame:
             return self.inline_or_opaque(n, self.F.functions[n["mg"]], None, args, args_n)
         args = tuple(self.fz(self.e(a)) for a in args_n)
         name = MATH_NAMES.get(fn, fn)
+        # Eigen::Matrix<T, R, C>::Zero() / Identity() of a fixed size: an explicit matrix value
+        if not args and re.search(r"::(Zero|Identity)$", str(fn)):
+            m_ = re.search(r"Matrix<[^,<>]+,\s*(\d+),\s*(\d+)", str(fn) + " " + str(n.get("t")))
+            dims = (int(m_.group(1)), int(m_.group(2))) if m_ else None
+            if dims:
+                mv = MatVal(*dims)
+                for i_ in range(dims[0]):
+                    for k_ in range(dims[1]):
+                        mv.el[(i_, k_)] = NUM1 if (str(fn).endswith("Identity") and i_ == k_) else ("num", Fraction(0))
+                return mv
         if name in ("std::make_tuple", "std::make_pair", "make_tuple", "make_pair"):
             return ("call", "tuple", args)
         if name in ("min", "max") and len(args) == 1 and args[0][0] == "call" and args[0][1] == "initlist" and args[0][2]:
